@@ -1062,13 +1062,19 @@ pub(super) fn poll_recv(
         }
         let local = bound_endpoint(st);
         let tcb = st.tcb.as_mut().unwrap();
+        // Every accepted segment is ACKed with the then-current window
+        // and only reads shrink the buffer, so a buffer that is full
+        // now means the peer was last told "window 0".
+        let was_closed = advertised_window(recv_cap, tcb.recv_buf.len()) == 0;
         let n = tcb.recv_buf.len().min(buf.len());
         let drained = tcb.recv_buf.split_to(n);
         buf[..n].copy_from_slice(&drained);
         // Window-update trigger: if we freed ≥ half the recv cap,
         // advertise. Crude SWS avoidance; refine alongside real flow
-        // control.
-        let should_update = n >= recv_cap / 2;
+        // control. A read that reopens a closed window always
+        // advertises: the sender has no persist timer, so a zero
+        // window drained in small reads would never reopen otherwise.
+        let should_update = n >= recv_cap / 2 || (was_closed && n > 0);
         (n, should_update, local, peer)
     };
 
